@@ -31,8 +31,8 @@ INDEX_COLS = ('npstartA', 'npstartB', 'npoutA', 'npoutB')
 
 def config(tier):
     if tier == 'quick':
-        return dict(shards=16, examples=12, numba_threads=1, boundscheck=[False, True], soft_s=170, shrink_calls=25, shrink_max_sigs=1)
-    return dict(shards=16, examples=160, numba_threads=1, boundscheck=[False, True], soft_s=1300, shrink_calls=120)
+        return dict(shards=16, examples=12, numba_threads=4, boundscheck=[False, True], soft_s=170, shrink_calls=25, shrink_max_sigs=1)
+    return dict(shards=16, examples=160, numba_threads=4, boundscheck=[False, True], soft_s=1300, shrink_calls=120)
 
 
 @st.composite
@@ -86,13 +86,13 @@ def _desc(draw, tier):
     return {'cat': cat, 'opts': o}
 
 
-EXHAUSTIVE_NOTE = 'two fixed large catalogs (a superslab of 70001 resp. 65537 halos next to a small one) with a positional filter (every 2nd/3rd row of each superslab) and an N threshold; not a complete enumeration of anything'
+EXHAUSTIVE_NOTE = 'three fixed large catalogs (a superslab of 70001, 65537 resp. 140001 halos next to a small one) with a positional filter (every 2nd/3rd row of each superslab), an N threshold and a filter keeping 15 of every 16 rows (more than 2^17 survivors); workers run with 4 numba threads; not a complete enumeration of anything'
 
 
 def exhaustive(tier, shard, nshards):
     spec = [{'A': [0, 1, 0, 0], 'B': [0, 0, 0, 0], 'gone': False}]
     items = []
-    for k, (rep, style) in enumerate(((70001, 'positional'), (65537, 'N'))):
+    for k, (rep, style) in enumerate(((70001, 'positional'), (65537, 'N'), (140001, 'dropfew'))):
         cat = {'layout': 'box', 'box': 500.0, 'velz': 3200.0, 'ppd': 64, 'nprev': 1, 'compression': 'none', 'cleanlayout': 'std', 'int_header': False, 'seed': 77 + k,
                'slabs': [{'index': 0, 'halos': spec, 'repeat': rep, 'tailA': 0, 'tailB': 0}, {'index': 1, 'halos': spec * 3, 'tailA': 1, 'tailB': 0}]}
         o = {'cleaned': False, 'passthrough': False, 'files': [0, 1], 'sub': {'AB': 'A', 'cols': ['pid']}, 'fields': 'idN', 'style': style,
@@ -131,7 +131,7 @@ def nontrivial(d):
     counts = [len(cat['slabs'][p]['halos']) for p in o['files']]
     if sum(1 for c in counts if c >= 1) >= 2:
         return True
-    if o['style'] in ('N', 'positional', 'value'):
+    if o['style'] in ('N', 'positional', 'value', 'dropfew'):
         return sum(counts) >= 2
     flatm = [m for ms in o['masks'] for m in ms]
     flato = [x for xs in _owned_counts(cat, o) for x in xs]
@@ -149,7 +149,7 @@ def classes(d):
     flatm = [m for ms in o['masks'] for m in ms]
     if o.get('big'):
         c.append('large-superslab')
-    if o['style'] not in ('N', 'positional', 'value'):
+    if o['style'] not in ('N', 'positional', 'value', 'dropfew'):
         c.append('mask=' + ('empty-table' if not flatm else 'keep-none' if not any(flatm) else 'keep-all' if all(flatm) else 'partial'))
     if o['passthrough']:
         c.append('passthrough')
@@ -385,6 +385,12 @@ def _check(cat, cdesc, o, CompaSOHaloCatalog):
 
         def ff(h):
             return scal(h) >= thr
+    elif style == 'dropfew':
+        # keeps 15 of every 16 rows of each superslab (a large superslab keeps more than 2^17 rows, with dropped rows ahead of survivors)
+        expmask = np.concatenate([np.arange(cat.slabs[p].n) % 16 != 3 for p in o['files']]) if o['files'] else np.zeros(0, bool)
+
+        def ff(h):
+            return np.arange(len(h)) % 16 != 3
     elif style == 'positional':
         # a filter that depends on the position of a row within its superslab (like "every third halo" or a per-superslab
         # quantile): it must be applied to each superslab as a whole
